@@ -51,6 +51,34 @@ impl RpcEndpoints {
 		Self::run(self.owner.post(req))
 	}
 
+	/// A request whose body is slow: the listener gets the request head (the handler
+	/// future is polled once and waits for the body), then `between` runs - other
+	/// requests are served completely meanwhile - and only then the body arrives.
+	/// Returns None when the handler answered without waiting for the body.
+	pub fn post_owner_slow(&self, body: &[u8], between: &mut dyn FnMut()) -> (u16, String, bool) {
+		use std::future::Future;
+		use std::task::{Context, Poll};
+		let (mut tx, b) = Body::channel();
+		let req = Request::post("http://sim/v3/owner").body(b).unwrap();
+		let mut fut = self.owner.post(req);
+		let waker = futures::task::noop_waker();
+		let mut cx = Context::from_waker(&waker);
+		let mut waited = false;
+		if let Poll::Pending = fut.as_mut().poll(&mut cx) {
+			waited = true;
+			between();
+			let _ = tx.try_send_data(hyper::body::Bytes::from(body.to_vec()));
+			// a second poll lets the handler take the chunk before the stream ends
+			let _ = fut.as_mut().poll(&mut cx);
+		} else {
+			// answered already (cannot happen for a handler that reads its body)
+			return (598, String::new(), false);
+		}
+		drop(tx);
+		let (st, body) = Self::run(fut);
+		(st, body, waited)
+	}
+
 	pub fn post_foreign(&self, body: &[u8]) -> (u16, String) {
 		let req = Request::post("http://sim/v2/foreign")
 			.body(Body::from(body.to_vec()))
